@@ -127,6 +127,10 @@ def shard(s):
         for pat in spaces.window_complete_chunks(R.SYM, 6, s[1]):
             _consume(acc, R.spell_rotating(pat, len(pat)), False)
         return acc
+    if s[0] == "LOP":
+        for pat in lopsided(s[1], s[2])[s[3]::s[4]]:
+            _consume(acc, R.spell_rotating(pat, len(pat) % 2), False)
+        return acc
     if s[0] == "P":
         _, L, pre = s
         for pat in spaces.shard_words(R.SYM, L, pre):
@@ -139,6 +143,35 @@ def shard(s):
             elif i >= hi:
                 break
     return acc
+
+
+def lopsided(kind, tier):
+    """Neutral-free and nearly neutral-free lopsided patterns (either sign as the majority):
+    'scatter': 1 minority residue at every position of a majority of total 5..40 (thorough 60), 2 minority residues at every
+               pair of positions up to total 22 (30);
+    'block'  : a minority block of 1..8 inserted at offset 0..6 into a majority of 20..68 step 4 (thorough: every size 12..90) -
+               the arrangements the delta-max search itself looks at, where kappa is at or near 1."""
+    out = []
+    inv = str.maketrans("+-", "-+")
+    if kind == "scatter":
+        n1, n2 = (40, 22) if tier == "quick" else (60, 30)
+        for N in range(5, n1 + 1):
+            for i in range(N):
+                out.append("+" * i + "-" + "+" * (N - 1 - i))
+        for N in range(5, n2 + 1):
+            for i in range(N):
+                for j in range(i + 1, N):
+                    a = ["+"] * N
+                    a[i] = a[j] = "-"
+                    out.append("".join(a))
+    else:
+        Ms = range(20, 72, 4) if tier == "quick" else range(12, 91)
+        for m in range(1, 9):
+            for M in Ms:
+                for off in range(0, 7):
+                    if off <= M:
+                        out.append("+" * off + "-" * m + "+" * (M - off))
+    return out + [p.translate(inv) for p in out]
 
 
 def sparse_shards(tier):
@@ -163,6 +196,7 @@ def run(tier, seed, t0):
     shards = [("P",) + s for s in spaces.word_shards(R.SYM, 1, L, 4 if L <= 10 else 5)]
     sp, comps = sparse_shards(tier)
     shards += sp
+    shards += [("LOP", kind, tier, i, 24) for kind in ("scatter", "block") for i in range(24)]
     shards += [("DB", (L_,)) for L_ in ((23, 41) if tier == "quick" else (17, 23, 31, 41, 61, 97))]
     acc = core.pmap(shard, shards)
     if os.environ.get("VMC_C01_DUMP"):
@@ -173,7 +207,7 @@ def run(tier, seed, t0):
     return core.finish(
         PROP, tier, seed, acc, t0,
         rule="every charge pattern over {+,-,0} of length 1..%d in K/E/G spelling, plus ALL arrangements of %d sparse "
-             "compositions of total 10..20 (%s); each state = one sequence, 3 real calls (get_kappa, get_delta, "
+             "compositions of total 10..20 (%s), plus lopsided neutral-free families (one minority residue at every position of a majority up to total 40/60, two at every pair up to 22/30; a minority block of 1..8 at offsets 0..6 inside a majority of 20..68/12..90; both signs), plus window-complete medium words; each state = one sequence, 3 real calls (get_kappa, get_delta, "
              "get_deltaMax; 6 with fresh-object repetition for length<=8) judged by clauses (a) -1 iff deltaMax==0, "
              "(b) kappa == clamp(delta/deltaMax), (c) kappa in {-1} U [0,1]; non-trivial = kappa != -1; outcomes = "
              "distinct kappa values" % (L, len(comps), "(1,n,1),(n,1,1),(1,1,n) slices" if tier == "quick"
